@@ -128,3 +128,12 @@ package connector
 //verif:modifies cProcs(s, connectorID)[*], cProcs(s, connectorID), s.connectors[connectorID].UpdatedAt
 //verif:loop 0 vars k=rangeindex
 //verif:loop 0 invariant k < len(conn.ProcessorIDs) && forall m in [0, k + 1): conn.ProcessorIDs[m] != processorID
+
+// C14: Delete is all-or-nothing: it fails only before anything was removed; once the
+// store entry and the in-memory entry are gone it reports success (a failing plugin
+// clean-up is logged, the orchestrator registers its compensating rollback only for a
+// nil result).
+//verif:func (*Service).Delete(s, ctx, id, dispenserFetcher) (err)
+//verif:ensures[error-means-nothing-removed] err != nil ==> !called("builtin.delete") && (old(has(s.connectors, id)) ==> has(s.connectors, id))
+//verif:call[memory-after-store] builtin.delete requires succeeded("(*Store).Delete")
+//verif:call[cleanup-after-removal] (*Instance).Close requires called("builtin.delete")
